@@ -64,10 +64,26 @@ def preds(tier):
     for op, c in [(">=", 15), ("<", 31), ("=", 15), (">", 16)]:
         out.append((f"k {op} {{c}} and v > 4", [(op, c)], "v>4", c))
         out.append((f"v > 4 and k {op} {{c}}", [(op, c)], "v>4", c))
+    # residual range predicates on another column, bounded on the same and on the opposite side as the key bound (the range
+    # analysis must keep ranges of different columns apart), in both operand orders
+    for op, c in [(">=", 15), ("<", 31), (">", 16), ("<=", 20)]:
+        for resid in RESIDUALS:
+            if resid == "v>4":
+                continue
+            out.append((f"k {op} {{c}} and {RESIDUALS[resid][0]}", [(op, c)], resid, c))
+            out.append((f"{RESIDUALS[resid][0]} and k {op} {{c}}", [(op, c)], resid, c))
+    out.append(("k > {c1} and k < {c2} and v >= 2 and v < 8", [(">", 14), ("<", 32)], "2<=v<8", (14, 32)))
+    out.append(("v >= 2 and k > {c1} and v < 8 and k < {c2}", [(">", 14), ("<", 32)], "2<=v<8", (14, 32)))
     for c in [15, 31, 50]:
         out.append((f"{{c}} < k", [(">", c)], None, c))
         out.append((f"{{c}} >= k", [("<=", c)], None, c))
     return out
+
+
+RESIDUALS = {
+    "v>4": ("v > 4", lambda v: v > 4), "v<5": ("v < 5", lambda v: v < 5), "v>=7": ("v >= 7", lambda v: v >= 7), "v<=3": ("v <= 3", lambda v: v <= 3),
+    "v=6": ("v = 6", lambda v: v == 6), "2<=v<8": ("v >= 2 and v < 8", lambda v: 2 <= v < 8),
+}
 
 
 def holds(k, conds):
@@ -121,7 +137,7 @@ def build(case, tier):
             if tier == "quick" and sel in ("s", "*") and (resid or isinstance(cc, tuple)):
                 continue
             sql = f"select {sel} from t where {where}"
-            want = [r for r in rows if holds(r[0], conds) and (resid is None or r[1] > 4)]
+            want = [r for r in rows if holds(r[0], conds) and (resid is None or RESIDUALS[resid][1](r[1]))]
             qs.append((sql, idx, want))
     steps += [{"sql": q[0]} for q in qs]
     steps.append({"sql": "pragma disable_optimizer"})
